@@ -132,6 +132,7 @@ func RunC10(s *kernel.Sim) *World {
 	var deadline time.Duration
 	if t.Bool(1, 2) {
 		deadline = []time.Duration{50 * time.Millisecond, 500 * time.Millisecond, 3 * time.Second, 10 * time.Second, 40 * time.Second}[t.Choice(5)]
+		deadline += 333 * time.Microsecond // never at the same instant as a back-off timer or a latency (Go's select is random among ready cases)
 		hangPossible = true
 	}
 	faulty := t.Bool(2, 3)
@@ -147,13 +148,13 @@ func RunC10(s *kernel.Sim) *World {
 				o := Outcome{Kind: OutFail}
 				switch t.Choice(6) {
 				case 0:
-					o = Outcome{Kind: OutOK, Latency: time.Duration(t.Range(1, 3000)) * time.Millisecond}
+					o = Outcome{Kind: OutOK, Latency: time.Duration(t.Range(1, 3000))*time.Millisecond + 500*time.Microsecond}
 				case 1:
 					if hangPossible {
 						o = Outcome{Kind: OutHang}
 					}
 				case 2:
-					o.Latency = time.Duration(t.Range(1, 2000)) * time.Millisecond
+					o.Latency = time.Duration(t.Range(1, 2000))*time.Millisecond + 500*time.Microsecond
 				}
 				sc = append(sc, o)
 			}
